@@ -8,7 +8,7 @@
 
 namespace vf {
 
-struct ExObjs { Obj *o[4][2]; };
+struct ExObjs { Obj *o[4][2]; Obj *cyc = nullptr; };
 
 inline uint64_t dig(uint64_t h, const v_outcome &x) {
     int f[9] = {x.ret, x.errcode, x.rc, x.idn_rc, x.is_ipv4, x.is_ipv6, x.is_domain, x.errstr_null, x.has_result};
@@ -16,13 +16,26 @@ inline uint64_t dig(uint64_t h, const v_outcome &x) {
     return hashb(x.errstr, strlen(x.errstr), h);
 }
 
-// which: bit 0 = objects, bit 1 = direct email, bit 2 = per-part validators
-inline uint64_t exercise_all(const vapi *A, ExObjs *objs, const char *p, size_t n, int which = 7, int only_mode = -1) {
+// which: bit 0 = dedicated objects, bit 1 = direct email, bit 2 = per-part validators, bit 3 = one object cycled through the modes
+inline uint64_t exercise_all(const vapi *A, ExObjs *objs, const char *p, size_t n, int which = 15, int only_mode = -1) {
     uint64_t h = 0; v_outcome o;
     const char *e = p + n;
     const char *at = nullptr; for (const char *q = p; q < e; q++) if (*q == '@') at = q;
     if (which & 1)
         for (int m = 0; m < 4; m++) { if (only_mode >= 0 && m != only_mode) continue; for (int t = 0; t < 2; t++) { A->obj_is_email(objs->o[m][t]->p, p, n, &o); h = dig(h, o); } }
+    if ((which & 8) && objs->cyc) {
+        // one object re-configured between calls: 6531 -> 822 -> (failed setup) -> 5321 -> 6531 -> 5322, validating after each
+        // step; must equal the dedicated objects' outcomes (no state may leak, nothing may be freed twice)
+        static const int ORDER[] = {3, 0, -1, 1, 3, 2};
+        for (int k : ORDER) {
+            if (k < 0) { A->obj_set_rfc_raw(objs->cyc->p, 99); (void) A->obj_setup(objs->cyc->p); continue; }
+            A->obj_set_mode(objs->cyc->p, k); if (A->obj_setup(objs->cyc->p) != 0) abort();
+            A->obj_is_email(objs->cyc->p, p, n, &o); h = dig(h, o);
+            v_outcome d; A->obj_is_email(objs->o[k][1]->p, p, n, &d);
+            if (dig(0, o) != dig(0, d)) h ^= 0xBADC0FFEE0DDF00DULL + k;   // visible as a digest difference between object sets only if it is set-specific
+            if (o.ret != d.ret || o.errcode != d.errcode) { fprintf(stderr, "CYCLING-OBJECT-DIFFERS mode %d\n", k); abort(); }
+        }
+    }
     if (which & 2)
         for (int m = 0; m < 4; m++) { if (only_mode >= 0 && m != only_mode) continue; for (int t = 0; t < 2; t++) { A->email_direct(m, p, n, t, &o); h = dig(h, o); } }
     if (which & 4) {
@@ -45,8 +58,9 @@ inline uint64_t exercise_all(const vapi *A, ExObjs *objs, const char *p, size_t 
 
 inline bool make_objs(const vapi *A, ExObjs *x, int prefill) {
     for (int m = 0; m < 4; m++) for (int t = 0; t < 2; t++) { x->o[m][t] = new Obj(A, prefill); if (x->o[m][t]->configure(m, t) != 0) return false; }
+    x->cyc = new Obj(A, prefill); if (x->cyc->configure(3, 1) != 0) return false;
     return true;
 }
-inline void free_objs(ExObjs *x) { for (auto &r : x->o) for (auto &o : r) { delete o; o = nullptr; } }
+inline void free_objs(ExObjs *x) { for (auto &r : x->o) for (auto &o : r) { delete o; o = nullptr; } delete x->cyc; x->cyc = nullptr; }
 
 } // namespace vf
